@@ -328,7 +328,14 @@ class Parser:
 
         accepted_head = None
         start_head = LRStackNode(
-            file_name, input_str, self.table.states[0], 0, position, extra
+            file_name,
+            input_str,
+            self.table.states[0],
+            0,
+            position,
+            extra,
+            start_position=position,
+            end_position=position,
         )
         self._init_dynamic_disambiguation(start_head)
         self.parse_stack = parse_stack = [start_head]
